@@ -114,7 +114,8 @@ func sendUDP(conn *net.UDPConn, b []byte) ([]byte, error) {
 	if err != nil {
 		return r, fmt.Errorf("error sending to (%s): %v", conn.RemoteAddr().String(), err)
 	}
-	udpbuf := make([]byte, 4096)
+	// A reply is one datagram of up to 64 KiB; what does not fit in the buffer is lost.
+	udpbuf := make([]byte, 65536)
 	n, _, err := conn.ReadFrom(udpbuf)
 	r = udpbuf[:n]
 	if err != nil {
